@@ -36,10 +36,10 @@ def gen(ctx, cfg, tag, **kw):
 
 def stress_configs(ctx):
     if ctx.tier == "quick":
-        return [dict(g=8, e=8, r=3, procs=4, calls=24, tz=TZS[ctx.seed % 4])]
+        return [dict(g=8, e=14, r=3, procs=4, calls=24, tz=TZS[ctx.seed % 4])]
     out = []
     i = 0
-    for g, e, r, calls in ((2, 4, 1, 60), (8, 12, 3, 40), (32, 30, 4, 24)):
+    for g, e, r, calls in ((2, 4, 1, 100), (8, 12, 3, 60), (32, 30, 4, 40)):
         for procs in (1, 4, 16):
             out.append(dict(g=g, e=e, r=r, procs=procs, calls=calls, tz=TZS[(i + ctx.seed) % 4]))
             i += 1
